@@ -25,6 +25,8 @@ class Opts:
         self.max_blocks = 12
         self.final_newline = True
         self.mltag = True           # layout "multi": some start tags have their attributes spread over several (decorated, indented) lines
+        self.filler_lines = 0       # ordinary code lines in front of everything (line numbers beyond 65535)
+        self.long_prose = 0         # some comments carry this many characters of prose in front of their tag (columns beyond 65535)
         self.bom = False            # file starts with a UTF-8 byte order mark (3 bytes that count in line 1's byte columns)
         for k, v in kw.items():
             assert hasattr(self, k), k
@@ -65,6 +67,8 @@ def _prose(r, o, form):
         return ""
     pool = PROSE_ASCII + (PROSE_MB if o.multibyte else [])
     t = r.choice(pool)
+    if o.long_prose and r.random() < 0.3:
+        t = (t + " ") * (o.long_prose // (len(t) + 1) + 1)
     if o.foreign and r.random() < 0.4:
         t = t + " " + r.choice(FOREIGN)
     return _clean(t, form)
@@ -308,6 +312,8 @@ def gen_file(r, lang_name, opts=None):
         g.b.raw("\ufeff")
     for ln in lang["prologue"]:
         g.b.line_text(ln)
+    for k in range(o.filler_lines):
+        g.b.line_text(lang["code"][k % len(lang["code"])])
     g.items(0)
     if g.nblocks == 0:
         g.block(0)
